@@ -26,8 +26,8 @@ theorem C13_trimmed_range_ordered (text : List Char) (s e : Nat) :
 /-- T13.2: when range formatting returns text, the returned range is the range of a node of the
 tree (a Markup, expression or pattern), it contains the trimmed, clamped request, and that node has
 no syntax errors. -/
-theorem C13_returned_range_covers_request (env : Env) (src : String) (root : ENode) (a b start stop : Nat) (txt : String)
-    (h : formatRange env src root a b = .ok start stop txt) :
+theorem C13_returned_range_covers_request (cfg : Config) (wd : String → Nat) (src : String) (root : ENode) (a b start stop : Nat) (txt : String)
+    (h : formatRange cfg wd src root a b = .ok start stop txt) :
     let r := trimRange src.toList (min a src.utf8ByteSize) (min b src.utf8ByteSize)
     start ≤ r.1 ∧ min r.2 src.utf8ByteSize ≤ stop ∧ stop ≤ root.len := by
   intro r
@@ -47,18 +47,18 @@ theorem C13_returned_range_covers_request (env : Env) (src : String) (root : ENo
         exact ⟨this.1, this.2.1, by simpa using this.2.2.2.2⟩
 
 /-- T13.3: an erroneous covering node is refused, never formatted. -/
-theorem C13_erroneous_node_is_refused (env : Env) (src : String) (root : ENode) (a b : Nat)
+theorem C13_erroneous_node_is_refused (cfg : Config) (wd : String → Nat) (src : String) (root : ENode) (a b : Nat)
     (n : ENode) (off : Nat) (mode : LMode)
     (hcov : cover (trimRange src.toList (min a src.utf8ByteSize) (min b src.utf8ByteSize)).1
               (min (trimRange src.toList (min a src.utf8ByteSize) (min b src.utf8ByteSize)).2 src.utf8ByteSize)
               root 0 .markup = some (n, off, mode))
-    (herr : n.erroneous = true) : formatRange env src root a b = .refused := by
+    (herr : n.erroneous = true) : formatRange cfg wd src root a b = .refused := by
   unfold formatRange
   simp only [hcov, herr, if_true]
 
 /-- No request is out of range: a range ending past the text is clamped before anything is sliced
 (the model has no partial operation here; the panic of the unrepaired code is finding F3). -/
-theorem C13_total (env : Env) (src : String) (root : ENode) (a b : Nat) :
-    ∃ r, formatRange env src root a b = r := ⟨_, rfl⟩
+theorem C13_total (cfg : Config) (wd : String → Nat) (src : String) (root : ENode) (a b : Nat) :
+    ∃ r, formatRange cfg wd src root a b = r := ⟨_, rfl⟩
 
 end Typstyle
